@@ -1,7 +1,7 @@
 """C12 - value conditions filter exactly: comparison table of the stock predicates and the one-guard rule."""
 import ast
 
-from ..astq import OPNAME, calls_named, compare_normal, conds, decision_list, ends_in_jump, split_tests, is_name, is_self_attr, kwarg, parse_fixture, returns_of, returns_with_conds
+from ..astq import expand, OPNAME, calls_named, compare_normal, conds, decision_list, ends_in_jump, split_tests, is_name, is_self_attr, kwarg, parse_fixture, returns_of, returns_with_conds
 from ..core import AnalysisError, norm, walk_local
 
 EXPECT = {"lt": ast.Lt, "gt": ast.Gt, "lte": ast.LtE, "gte": ast.GtE}
@@ -409,4 +409,31 @@ def run(repo, chk):
     muts = shared_value_mutations(repo, {"selector.Element", "selector.Call"})
     chk.ob("R12.3", "selector:value-conditions-are-not-shared-between-selectors", not muts, "ptera/selector.py",
            "the conditions checked by check_captures (all_values) are collected in a fresh list per selector, never appended to the cached list of a shared part" + (f" -- {muts}" if muts else ""))
+    # writer's and reader's keys agree: check_captures reads captures[v.capture]; every entry of an accumulator's table is filed under element.capture
+    keys, bad_keys = [], []
+    for fi in repo.functions.values():
+        if not fi.qual.startswith("interpret."):
+            continue
+        params = {a.arg for a in fi.node.args.args}
+        for n in walk_local(fi.node):
+            k = None
+            if isinstance(n, ast.Subscript) and norm(n.value) == "self.captures":
+                k = n.slice
+            elif isinstance(n, ast.Compare) and len(n.ops) == 1 and isinstance(n.ops[0], (ast.In, ast.NotIn)) and norm(n.comparators[0]) == "self.captures":
+                k = n.left
+            if k is None:
+                continue
+            kt = expand(k, fi.node)
+            good = isinstance(k, ast.AST) and kt.endswith(".capture") and kt[:-len(".capture")] in params
+            keys.append(f"{fi.qual}:{kt}")
+            if not good:
+                bad_keys.append(f"{fi.qual}: self.captures[{kt}]")
+    readers = [norm(n) for fi in repo.functions.values() if fi.qual.startswith("selector.") for n in walk_local(fi.node)
+               if isinstance(n, ast.Subscript) and norm(n.value) == "captures"]
+    chk.ob("R12.3", "interpret:captures-filed-under-the-name-the-check-reads", len(keys) >= 4 and not bad_keys and readers == ["captures[v.capture]"], "ptera/interpret.py",
+           f"check_captures looks a constrained variable up as {readers}; every entry of an accumulator's capture table -- the tentative one that intercept files "
+           f"for the duration of the check included -- is filed under `<element>.capture` ({len(keys)} sites), so a variable captured under another name "
+           f"(`j as v~cond`) is checked on the value just offered, not on a stale one" + (f"; differently keyed: {bad_keys}" if bad_keys else ""))
     chk.count("functions", 14)
+    from .shared import activation_integrity_obligations
+    activation_integrity_obligations(repo, chk, "R12.2", "probes with value conditions")
